@@ -580,7 +580,7 @@ def cases(ctx):
             else:
                 kw = dict(finite_object=True, ap_types=('objectNA',), field_types=('object_height',))
         d = lensgen.gen_lens(rng, allow_conic=False, allow_asphere=False, catalog=True,
-                             allow_mirror=rng.random() < 0.3, stop=stop, **kw)
+                             allow_mirror=rng.random() < 0.3, stop=stop, immersed_image=rng.random() < 0.25, **kw)
         nopt = len(d['surfaces']) - 2
         if nopt <= 3 or rng.random() < (0.15 if ctx.quick() else 0.04):
             ops = 'full'
